@@ -52,11 +52,18 @@ func ToDateTime64(t time.Time, p Precision) DateTime64 {
 	if t.IsZero() {
 		return 0
 	}
-	return DateTime64(t.UnixNano() / p.Scale())
+	// Work in seconds and ticks: UnixNano overflows outside 1678..2262, while
+	// the type covers 1900..2299 for every precision below nanoseconds.
+	scale := p.Scale()
+	ticksPerSecond := int64(time.Second) / scale
+	return DateTime64(t.Unix()*ticksPerSecond + int64(t.Nanosecond())/scale)
 }
 
 // Time returns DateTime64 as time.Time.
 func (d DateTime64) Time(p Precision) time.Time {
-	nsec := int64(d) * p.Scale()
-	return time.Unix(nsec/1e9, nsec%1e9)
+	// Split into seconds and the sub-second part before scaling to
+	// nanoseconds, so that the multiplication can not overflow.
+	scale := p.Scale()
+	ticksPerSecond := int64(time.Second) / scale
+	return time.Unix(int64(d)/ticksPerSecond, (int64(d)%ticksPerSecond)*scale)
 }
